@@ -215,10 +215,14 @@ def check_visit(model: Model, report: Report, rule_order: str, rule_depth: Optio
     if len(params) < 3:
         _check_visit_without_depth(model, report, rule_depth or rule_order, fn)
         return
+    # parameters beyond (self, node, depth) are handed down by the recursion: a generic call below the start node
+    # receives whatever earlier levels left in them, so each cell is also run with those parameters unknown
+    extra = params[3:]
+    variants = ["start"] + (["below"] if extra else [])
     for kind in KINDS:
-        for region in ("within", "exceeded"):
+        for region, variant in [(r, v_) for r in ("within", "exceeded") for v_ in variants]:
 
-            def body(it: Interp, kind=kind, region=region) -> Any:
+            def body(it: Interp, kind=kind, region=region, variant=variant) -> Any:
                 env = make_env(it, model, False)
                 seg = make_segment(it, model, "segments.JSONPathRecursiveDescentSegment", env)
                 v = it.new_sym("V", [kind])
@@ -230,10 +234,13 @@ def check_visit(model: Model, report: Report, rule_order: str, rule_depth: Optio
                 else:
                     it.ctx.assume_le0(limit - depth.lin + Lin.k(1))
                 it.hooks["__recursion_cut__"] = {fn.qualname}
-                ev, term = run_trace(it, fn, [seg, node, depth], seg)
+                args = [seg, node, depth]
+                if variant == "below":
+                    args += [it.new_opaque(f"handed-down-by-the-recursion:{p_}") for p_ in extra]
+                ev, term = run_trace(it, fn, args, seg)
                 return ev, term, node, v, seg, depth, it
 
-            cell = f"visit:{kind}:depth-{region}"
+            cell = f"visit:{kind}:depth-{region}" + ("" if variant == "start" else ":below-start-node")
             try:
                 runs = paths(model, body)
             except Unsupported as err:
